@@ -1,4 +1,5 @@
 import FinProtoc.Cli
+import FinProtoc.Proofs.CliLemmas
 /-!
 # C16 — every entry point delivers exactly the library result
 
@@ -7,11 +8,17 @@ Theorems on the wrapper MODEL (`Cli`), for every formatter function `fmt`, every
 `format -f` leaves exactly the result in the file and prints nothing; on a syntax error both exit
 non-zero, print an error and leave every file as it was; the C export returns the result or an
 `Error:`-prefixed message; an argument vector without sub-command word is the one with `compile`
-inserted.  The check runs the REAL binary and the REAL shared library built from the current tree on
+inserted.  `compile` (`runCompile` / `runTargets` / `writeCode`, the loop of `cmd/compile.go` over `WriteCodeToFile`): after a run in
+which every requested generator succeeded each path holds the bytes of the LAST write made to it, the writes being exactly the
+files of the requested targets under their directories (`compile_files`); a path nobody wrote is untouched
+(`compile_nowhere_else`); with non-overlapping directories every file holds exactly its generator's bytes whatever order the Go
+map range delivered them in (`compile_files_disjoint`); a text with diagnostics changes no path and exits 1 (`compile_refuses`).
+The wrapper model is EXECUTED on every case of the run (driver ops `format_world`, `compile_world`, `args_world`) and its world is
+compared with what the real binary left behind.  The check runs the REAL binary and the REAL shared library built from the current tree on
 every text of the run and compares with the library result — which is what these theorems predict.
 -/
 namespace FinProtoc.Props
-open FinProtoc.Cli
+open FinProtoc.Cli FinProtoc.Proofs.CliLemmas
 
 theorem format_d (fmt : String → Option String) (dsl r : String) (w : World) (hd : dsl ≠ "") (hr : fmt dsl = some r) :
     runFormat fmt dsl "" w = { w with stdout := w.stdout ++ r ++ "\n" } := by
@@ -53,5 +60,76 @@ theorem explicit_subcommand (a : String) (rest : List String) (h : a ∈ subcomm
   simp [rewriteArgs, h]
 
 example : rewriteArgs ["-f", "x.dsl", "-g", "out"] = rewriteArgs ["compile", "-f", "x.dsl", "-g", "out"] := by decide
+
+/-- **compile writes exactly the generators' file set, byte for byte, and nowhere else.**  After a run in which every
+requested generator succeeded, a path holds the content of the LAST write made to it (`writes`: every file of every
+requested target under that target's directory, in the order of the generator table), and a path nobody wrote holds
+what it held before; the exit status is untouched. -/
+theorem compile_files (ts : List Target) (w : World) (h : allOk ts = true) (p : String) :
+    (runTargets ts w).read p = ((writes ts).reverse.lookup p).or (w.read p) ∧ (runTargets ts w).exit = w.exit := by
+  induction ts generalizing w with
+  | nil => simp [runTargets, writes]
+  | cons t ts ih =>
+    unfold runTargets writes
+    unfold allOk at h
+    by_cases hp : t.path = ""
+    · simp only [hp, ↓reduceIte]
+      simp only [hp, decide_true, Bool.true_or, Bool.true_and] at h
+      exact ih w h
+    · simp only [hp, ↓reduceIte]
+      cases hg : t.gen with
+      | error e => simp [hp, hg] at h
+      | ok files =>
+        simp only [hp, hg, decide_false, Bool.false_or, Bool.true_and] at h
+        simp only []
+        obtain ⟨h1, h2⟩ := ih (writeCode t.path files w) h
+        rw [h1, h2, writeCode_eq, read_foldl_write, exit_foldl_write, List.reverse_append, List.lookup_append]
+        constructor
+        · cases (List.lookup p (writes ts).reverse) <;> simp
+        · rfl
+
+/-- when no path is written twice (the file names of one target are the keys of a Go map, and the requested directories
+do not overlap), every written path ends up with exactly the bytes its generator produced — in whatever order the map
+range of `WriteCodeToFile` happened to deliver the files -/
+theorem compile_files_disjoint (ts : List Target) (w : World) (h : allOk ts = true)
+    (hn : ((writes ts).map Prod.fst).Nodup) (p c : String) (hm : (p, c) ∈ writes ts) :
+    (runTargets ts w).read p = some c := by
+  rw [(compile_files ts w h p).1]
+  have : (writes ts).reverse.lookup p = some c :=
+    lookup_of_mem_nodup _ p c (by rw [List.map_reverse]; unfold List.Nodup at *; rw [List.pairwise_reverse]; exact hn.imp (fun h => fun e => h e.symm)) (List.mem_reverse.mpr hm)
+  rw [this]; rfl
+
+/-- … and nowhere else -/
+theorem compile_nowhere_else (ts : List Target) (w : World) (h : allOk ts = true) (p : String)
+    (hp : p ∉ (writes ts).map Prod.fst) : (runTargets ts w).read p = w.read p := by
+  rw [(compile_files ts w h p).1]
+  have : (writes ts).reverse.lookup p = none := by
+    rw [List.lookup_eq_none_iff]
+    intro x hx
+    have hx' := List.mem_reverse.mp hx
+    simp only [bne_iff_ne, ne_eq]
+    intro e
+    exact hp (List.mem_map.mpr ⟨x, hx', e.symm⟩)
+  rw [this]; rfl
+
+/-- a text with diagnostics never reaches a generator: no path changes and the exit status is 1 (C12's "no output file written") -/
+theorem compile_refuses (diags : List String) (ts : List Target) (w : World) (h : diags ≠ []) (p : String) :
+    (runCompile diags ts w).read p = w.read p ∧ (runCompile diags ts w).exit = 1 := by
+  unfold runCompile
+  have : diags.isEmpty = false := by cases diags <;> simp_all
+  simp only [this, Bool.false_eq_true, ↓reduceIte, and_true]
+  exact read_foldl_println diags w p
+
+/-- a well-formed text: `compile` is the generator loop -/
+theorem compile_accepts (ts : List Target) (w : World) : runCompile [] ts w = runTargets ts w := rfl
+
+
+
+/-- non-vacuity: two targets, one overwriting an existing longer file, one path left alone -/
+example :
+    let ts : List Target := [⟨"Lua", "", .ok [("x.lua", "l")]⟩, ⟨"Go", "o/go", .ok [("a.go", "A"), ("b.go", "B")]⟩, ⟨"Java", "o/java", .ok [("A.java", "J")]⟩]
+    let w : World := { files := [("o/go/a.go", "OLD LONGER"), ("keep.txt", "k")] }
+    allOk ts = true ∧ ((writes ts).map Prod.fst).Nodup ∧ (runTargets ts w).read "o/go/a.go" = some "A" ∧ (runTargets ts w).read "keep.txt" = some "k"
+      ∧ (runTargets ts w).read "x.lua" = none ∧ (runTargets ts w).exit = 0 := by decide
 
 end FinProtoc.Props
